@@ -153,6 +153,8 @@ class Env:
         self.snapshot_at_calls = False  # True: call/create events carry the persistent state at the moment of the call
         self.reentrancy_havoc = False  # True: persistent state after a call/create is arbitrary (callee may re-enter)
         self.code = code  # concrete bytes of the running code, when known
+        self.code_tail = self.imm0  # bytes appended to the running code: immutables (run-time code) / constructor arguments (init code)
+        self.code_tail_len = None  # length of that section when it matters (constructor arguments), else None
         self.assumptions = []  # facts about the environment's answers (call success flag is 0/1, created address < 2**160)
         self.tag = t
         self.extcodesize = z3.Function("extcodesize" + t, W, W)
